@@ -21,6 +21,11 @@ Definition find_span_binsearch_fix (p : nat) (U : list T) (num : nat) (u : T) : 
   let n := Nat.pred num in
   if oleb K (kn K U (S n)) u then Some n
   else binsearch_loop K (S (S (length U))) U u p num (Nat.div2 (S (Nat.add p num))).
+(* for the record: the end test of the pinned tree (cdaf30b),  if abs(knot_vector[n + 1] - knot) <= tol: return n *)
+Definition find_span_binsearch_pinned (tol : T) (p : nat) (U : list T) (num : nat) (u : T) : option nat :=
+  let n := Nat.pred num in
+  if oleb K (oabs K (kn K U (S n) - u)) tol then Some n
+  else binsearch_loop K (S (S (length U))) U u p num (Nat.div2 (S (Nat.add p num))).
 Definition span_linear_opt (p : nat) (U : list T) (num : nat) (u : T) : option nat := Some (find_span_linear K p U num u).
 
 (* ---- point evaluation with a pluggable span function (the find_span_func keyword) ---- *)
@@ -56,14 +61,21 @@ Definition delta_of_sample_size (value : nat) : res T :=
 Definition voxel_filled (tol : T) (bb : list (list T)) (pts : list (list T)) : nat :=
   let bbmin := map (fun b => b - tol) (nth 0 bb []) in
   let bbmax := map (fun b => b + tol) (nth 1 bb []) in
-  let d i := nth i bbmax (o0 K) - nth i bbmin (o0 K) in
-  let dd i := (d i * d i + o0 K * o0 K) + o0 K * o0 K in
+  let m0 := nth 0 bbmin (o0 K) in let m1 := nth 1 bbmin (o0 K) in let m2 := nth 2 bbmin (o0 K) in
+  let d0 := nth 0 bbmax (o0 K) - m0 in let d1 := nth 1 bbmax (o0 K) - m1 in let d2 := nth 2 bbmax (o0 K) - m2 in
+  (* vector_dot(i, i) with i = [d0, 0, 0] etc. *)
+  let dd0 := (d0 * d0 + o0 K * o0 K) + o0 K * o0 K in
+  let dd1 := (o0 K * o0 K + d1 * d1) + o0 K * o0 K in
+  let dd2 := (o0 K * o0 K + o0 K * o0 K) + d2 * d2 in
   let inside pt :=
-    let v i := nth i pt (o0 K) - nth i bbmin (o0 K) in
-    let vd i := v i * d i in
-    andb (andb (andb (oltb K (vd 0) (dd 0)) (oleb K (o0 K) (vd 0)))
-               (andb (oltb K (vd 1) (dd 1)) (oleb K (o0 K) (vd 1))))
-         (andb (oltb K (vd 2) (dd 2)) (oleb K (o0 K) (vd 2))) in
+    let vd0 := (nth 0 pt (o0 K) - m0) * d0 in
+    if andb (oltb K vd0 dd0) (oleb K (o0 K) vd0) then
+      let vd1 := (nth 1 pt (o0 K) - m1) * d1 in
+      if andb (oltb K vd1 dd1) (oleb K (o0 K) vd1) then
+        let vd2 := (nth 2 pt (o0 K) - m2) * d2 in
+        andb (oltb K vd2 dd2) (oleb K (o0 K) vd2)
+      else false
+    else false in
   if existsb inside pts then 1 else 0.
 End M.
 
@@ -141,8 +153,13 @@ Definition env1024 : string := "1024".
 End Env.
 
 (* the memoised functions of helpers.py / linalg.py that are pure integer functions *)
-Fixpoint fact (n : nat) : nat := match n with O => 1 | S m => Nat.mul n (fact m) end.
-Definition binomial (ki : nat * nat) : nat :=
-  let '(k, i) := ki in if Nat.ltb k i then 0 else Nat.div (fact k) (Nat.mul (fact (Nat.sub k i)) (fact i)).
+(* linalg.binomial_coefficient(k, i) = k! / ((k-i)! i!) for i <= k, 0 otherwise: Pascal's rule (no factorials in unary nat) *)
+Fixpoint binom (k i : nat) : nat :=
+  match k, i with
+  | _, O => 1
+  | O, S _ => 0
+  | S k', S i' => Nat.add (binom k' i') (binom k' i)
+  end.
+Definition binomial (ki : nat * nat) : nat := binom (fst ki) (snd ki).
 Definition pair_eqb (a b : nat * nat) : bool := andb (Nat.eqb (fst a) (fst b)) (Nat.eqb (snd a) (snd b)).
 Definition identity_matrix (n : nat) : list (list nat) := map (fun j => map (fun i => if Nat.eqb i j then 1 else 0) (seq 0 n)) (seq 0 n).
